@@ -1244,7 +1244,7 @@ func ruleFuncFlag(p *Program, r *Reporter) {
 		fl := ""
 		for _, b := range f.Blocks {
 			for _, ins := range b.Instrs {
-				if al, ok := ins.(*ssa.Alloc); ok && al.Heap && isNamed(al.Type(), "ast", "FunctionDefinition") {
+				if buildsFunctionDefinition(ins) {
 					builds = true
 				}
 				if st, ok := ins.(*ssa.Store); ok {
